@@ -43,6 +43,9 @@ def random_instruction(w: World, sim, vid: str, rng: random.Random):
         # queues at a full station), departures, abandonments, a few excursions
         kind = rng.choice(["station", "station", "station", "charge_s", "idle", "idle", "repos", "oos", "base"])
 
+    if getattr(w, "base_scenario", False):
+        kind = rng.choice(["charge_b", "charge_b", "charge_b", "reserve", "reserve", "idle", "repos", "charge_s"])
+
     def pick(ids, here=None, missing="x999"):
         r = rng.random()
         if r < 0.06 or not ids:
@@ -54,7 +57,7 @@ def random_instruction(w: World, sim, vid: str, rng: random.Random):
     stations_here = [s.id for s in sim.stations.values() if s.geoid == v.geoid]
     bases_here = [b.id for b in sim.bases.values() if b.geoid == v.geoid]
     charger = rng.choice(sorted(CHARGERS.keys()))
-    if getattr(w, "queue_scenario", False) and rng.random() < 0.9:
+    if (getattr(w, "queue_scenario", False) or getattr(w, "base_scenario", False)) and rng.random() < 0.9:
         charger = sorted(next(iter(sim.stations.values())).state.keys())[0]
     if kind == "idle":
         return I.IdleInstruction(vid)
@@ -146,7 +149,13 @@ def random_state(w: World, sim, vid: str, rng: random.Random):
 def controller(w: World, sim, rng: random.Random, p_instr: float) -> List[Any]:
     out = []
     for vid in sorted(sim.vehicles.keys()):
-        if rng.random() < p_instr:
+        p = p_instr
+        if getattr(w, "queue_scenario", False):
+            # keep queues alive: waiting vehicles are mostly left alone, charging ones leave now and
+            # then (which frees a plug), everybody else is sent to the station often
+            st = sim.vehicles[vid].vehicle_state
+            p = 0.04 if isinstance(st, ChargeQueueing) else (0.12 if isinstance(st, ChargingStation) else 0.6)
+        if rng.random() < p:
             out.append(random_instruction(w, sim, vid, rng))
     if rng.random() < 0.05:
         out.append(I.IdleInstruction("v999"))
